@@ -46,6 +46,9 @@ Inductive xres := XOk | XAlreadyV1 | XErr (e : err).
 (* result of the CopyN loop *)
 Inductive copy_res := CopyEnd (s d : bytes) (remaining : N) | CopyFuel.
 
+(* f.Seek(0, io.SeekCurrent) after reading from [s] left [rest]: the bytes consumed *)
+Definition consumed (s rest : bytes) : N := blen s - blen rest.
+
 Section Oracles.
   Variable hdrdec : bytes -> option (list bytes * N).
 
@@ -87,8 +90,8 @@ Section Oracles.
     match read_header hdrdec (x_maxh o) all with
     | Err EHeaderTooLarge => Err EHeaderTooLarge   (* wrapped, still recognisable *)
     | Err _ => Err EOther                          (* "error reading car header: %w" *)
-    | Ok (_, v, rest, used) =>
-      if v =? 1 then li_loop (S (length all)) o all used 0 0 []
+    | Ok (_, v, rest, _) =>
+      if v =? 1 then li_loop (S (length all)) o all (consumed all rest) 0 0 []
       else if v =? 2 then
         match read_v2hdr rest with
         | Err e => Err e
@@ -97,9 +100,10 @@ Section Oracles.
           else
             match read_header hdrdec (x_maxh o) (drop (h_doff h) all) with
             | Err e => Err e
-            | Ok (_, v1, _, used1) =>
+            | Ok (_, v1, rest1, _) =>
               if negb (v1 =? 1) then Err EOther
-              else li_loop (S (length all)) o all (h_doff h + used1) (h_doff h) (h_dsize h) []
+              else li_loop (S (length all)) o all
+                           (h_doff h + consumed (drop (h_doff h) all) rest1) (h_doff h) (h_dsize h) []
             end
         end
       else Err EOther
@@ -202,8 +206,8 @@ Section Oracles.
     | Some a =>
       match read_header hdrdec (x_maxh o) a with
       | Err e => (Err e, f)
-      | Ok (_, v, rest, used) =>
-        if v =? 1 then replace_finish a 0 used roots
+      | Ok (_, v, rest, _) =>
+        if v =? 1 then replace_finish a 0 (consumed a rest) roots
         else if v =? 2 then
           match read_v2hdr rest with
           | Err e => (Err e, f)
@@ -212,9 +216,9 @@ Section Oracles.
             else
               match read_header hdrdec (x_maxh o) (drop (h_doff h) a) with
               | Err e => (Err e, f)
-              | Ok (_, _, _, used1) =>
+              | Ok (_, _, rest1, _) =>
                 (* the "inner version <> 1" error is overwritten by the next assignment *)
-                replace_finish a (h_doff h) used1 roots
+                replace_finish a (h_doff h) (consumed (drop (h_doff h) a) rest1) roots
               end
           end
         else (Err EOther, f)
